@@ -154,7 +154,21 @@ func (ArchLinux) Package(info *nfpm.Info, w io.Writer) error {
 		return fmt.Errorf("create mtree: %w", err)
 	}
 
-	return createScripts(info, tw)
+	if err := createScripts(info, tw); err != nil {
+		return err
+	}
+
+	// the writers are closed here so that their errors are not lost, the defers
+	// above are just in case that we error out earlier
+	if err := tw.Close(); err != nil {
+		return fmt.Errorf("closing tar: %w", err)
+	}
+
+	if err := zw.Close(); err != nil {
+		return fmt.Errorf("closing zstd stream: %w", err)
+	}
+
+	return nil
 }
 
 // ConventionalExtension returns the file name conventionally used for Arch Linux packages
